@@ -18,6 +18,12 @@ CHECKS["C13"] = (["WsProtocol", "WsProtocol_MC", "WsProtocol_Trace"],
     "Scripted connection mimics a real one (stops after close). Frames whose treatment the statement does not fix (next with null data, client-only types) are observed only. The real-server handshake is a known finding (F15); the rest of real sessions is validated through a keyword-renaming adapter.",
     "§6 C13")
 
+CHECKS["C14"] = (["Builder", "Builder_MC", "Builder_Trace"],
+    "TLA+ spec of the builder heap (shared class-level field objects, fresh method results, object reuse across operations), to_ast variable naming and variable collection; TLC exhaustive + -simulate; every exported history replayed into the generated custom_fields/custom_queries + Client.query (sync/async), documents validated and executed with graphql-core; add/reuse/build traces validated by Builder_Trace",
+    "All expression trees up to MaxNodes (quick 3, thorough 4) for single operations are enumerated exhaustively by TLC with DocValid/ArgsExact/history-freedom invariants; histories of up to 3 operations x 5 nodes with shared leaves and re-used objects are sampled with TLC -simulate; each is replayed into the real generated builder and the captured request is judged against the expression (structure, aliases, declared types, bound values), against graphql-core validation/execution, and by trace validation against the spec.",
+    "Optional arguments all-or-none per node; one schema universe (camelCase names, list/non-null/input/enum/custom-scalar arguments, interface + union). graphql-core is the validity oracle. The alias leak on shared attributes is known finding F16d (deviation AliasCopies=FALSE).",
+    "§6 C14")
+
 NOT_YET = {}
 
 
